@@ -58,6 +58,16 @@ def run(ctx):
     # store that is checked against one index and performed at another shows as an access outside the array
     seq += [('ord%d' % i, src, a, 2, 200, False, 300000) for i, (src, a, tag) in enumerate(gen_special.order_programs(ctx.rng))
             if tag.startswith(('compound_elem', 'int_', 'byte_'))]
+    # strings read as byte arrays (implicitly at a `const byte[]` parameter, explicitly with `is byte[]`): the bytes live in the const
+    # section - read through a state-section access they would be the registers and the stack
+    shw = ('empty show(const byte[] a) { for (int i = 0; i < a.length; i += 1) { write(a[i]); } write(\'|\'); write(a); write(a.length); }\n'
+           'int sum(const byte[] a) { int t = 0; for (int i = 0; i < a.length; i += 1) { t += a[i]; } return t; }\n')
+    sb = ['show("Hi!");', 'string s = "hello, world"; show(s); write(sum(s));', 'string s = "abc"; write(s is byte[]); write((s is byte[])[1]); write((s is byte[]).length);',
+          'const byte[] b = "xyz" is byte[]; write(b[1]); write(b); show(b);', 'string[] ss = ["one", "three"]; show(ss[1]); write(sum(ss[0]));',
+          'write(sum("\\x01\\x02\\xff")); show("");']
+    for k, body in enumerate(sb):
+        for w in (2, 4):
+            seq.append(('strbytes%d_w%d' % (k, w), shw + 'string gs = "global";\nempty @is_you(string arg) { %s show(gs); show(arg); }' % body, ['argument'], w, 200, False, 300000))
     suites.tight_stack(ctx, seq, label='tight-stack-sequential')
     tt = []
     for w, n in [(2, ctx.budget(80, 2000)), (4, ctx.budget(20, 500))]:
